@@ -177,11 +177,13 @@ fn run(p: &Parts, fs: &[&[usize]], fp: &[u8], es: &[&[usize]], ep: &[u8]) {
     let mut ebuf = [0u8; 144 + 48 + 4];
     let fl = enc_filter(p, fs, fp, &mut fbuf);
     let el = enc_event(p, es, ep, &mut ebuf);
-    let filter = unsafe { Filter::delineate(&fbuf[..fl]) };
-    let event = unsafe { Event::delineate(&ebuf[..el]) };
-    assert!(filter.is_ok() && event.is_ok());
-    let filter = filter.unwrap();
-    let event = event.unwrap();
+    // views made with the same pointer cast as `from_inner` (keeps lengths constant for the
+    // symbolic executor; `delineate` returns them inside a niche-encoded Result)
+    let fs_: &[u8] = &fbuf[..fl];
+    let es_: &[u8] = &ebuf[..el];
+    let filter: &Filter = unsafe { &*(fs_ as *const [u8] as *const Filter) };
+    let event: &Event = unsafe { &*(es_ as *const [u8] as *const Event) };
+    assert!(filter.len() == fl && event.len() == el);
     let spec = spec_header(p) && spec_tags(fs, fp, es, ep);
     let got = filter.event_matches(event);
     kani::cover!(spec);
@@ -195,22 +197,64 @@ fn run(p: &Parts, fs: &[&[usize]], fp: &[u8], es: &[&[usize]], ep: &[u8]) {
     }
 }
 
-//@ harness: c06_header_counts
+//@ harness: c06_header_000 c06_header_111 c06_header_222
 //@ tier: quick
-//@ timeout: 1500
+//@ timeout: 1200
 //@ mem: 12
+//@ unwindset: memcmp.0=34; put_bytes=8
+//@ cbmc: --max-field-sensitivity-array-size 256
 //@ encodes: Filter::event_matches, Filter::{ids,authors,kinds,since,until,tags}, Event::{id,pubkey,kind,created_at,tags}, Tags::is_empty
-//@ bounds: 0..=2 ids, 0..=2 authors, 0..=2 kinds (each count symbolic), every id/pubkey/kind/since/until/created_at value arbitrary (boundary times included), no tag constraints, event without tags
-//@ outside: more than two entries per list
+//@ bounds: ids/authors/kinds counts (0,0,0), (1,1,1), (2,2,2) - the instance -, every id/pubkey/kind/since/until/created_at value arbitrary (boundary times included), no tag constraints, event without tags
+//@ outside: more than two entries per list; the mixed count shapes are thorough instances
 #[kani::proof]
-#[kani::unwind(36)]
+#[kani::unwind(5)]
 #[kani::stub(core::panic::Location::caller, stub_caller)]
-fn c06_header_counts() {
-    let ni: usize = kani::any();
-    let na: usize = kani::any();
-    let nk: usize = kani::any();
-    kani::assume(ni <= 2 && na <= 2 && nk <= 2);
-    let p = any_parts(ni, na, nk);
+fn c06_header_000() {
+    let p = any_parts(0, 0, 0);
+    run(&p, &[], &[], &[], &[]);
+}
+#[kani::proof]
+#[kani::unwind(5)]
+#[kani::stub(core::panic::Location::caller, stub_caller)]
+fn c06_header_111() {
+    let p = any_parts(1, 1, 1);
+    run(&p, &[], &[], &[], &[]);
+}
+#[kani::proof]
+#[kani::unwind(5)]
+#[kani::stub(core::panic::Location::caller, stub_caller)]
+fn c06_header_222() {
+    let p = any_parts(2, 2, 2);
+    run(&p, &[], &[], &[], &[]);
+}
+
+//@ harness: c06_header_201 c06_header_022 c06_header_120
+//@ tier: thorough
+//@ timeout: 1200
+//@ mem: 12
+//@ unwindset: memcmp.0=34; put_bytes=8
+//@ cbmc: --max-field-sensitivity-array-size 256
+//@ encodes: Filter::event_matches, Filter::{ids,authors,kinds}
+//@ bounds: mixed count shapes (2,0,1), (0,2,2), (1,2,0): the offsets of the author and kind arrays depend on the earlier counts
+#[kani::proof]
+#[kani::unwind(5)]
+#[kani::stub(core::panic::Location::caller, stub_caller)]
+fn c06_header_201() {
+    let p = any_parts(2, 0, 1);
+    run(&p, &[], &[], &[], &[]);
+}
+#[kani::proof]
+#[kani::unwind(5)]
+#[kani::stub(core::panic::Location::caller, stub_caller)]
+fn c06_header_022() {
+    let p = any_parts(0, 2, 2);
+    run(&p, &[], &[], &[], &[]);
+}
+#[kani::proof]
+#[kani::unwind(5)]
+#[kani::stub(core::panic::Location::caller, stub_caller)]
+fn c06_header_120() {
+    let p = any_parts(1, 2, 0);
     run(&p, &[], &[], &[], &[]);
 }
 
@@ -218,10 +262,12 @@ fn c06_header_counts() {
 //@ tier: quick
 //@ timeout: 1800
 //@ mem: 12
+//@ unwindset: memcmp.0=34; put_bytes=8
+//@ cbmc: --max-field-sensitivity-array-size 256
 //@ encodes: Filter::event_matches, Tags::get_string, Tags::matches, TagsIter, TagsStringIter
 //@ bounds: filter constraint [n(1) v(1) v(2)], event tags [[n(1) v(1) x(1)], [n(1) v(2)]] - all string bytes arbitrary (values that are prefixes/extensions of each other, repeated names); header arbitrary with one kind
 #[kani::proof]
-#[kani::unwind(36)]
+#[kani::unwind(5)]
 #[kani::stub(core::panic::Location::caller, stub_caller)]
 fn c06_tags_prefix_values() {
     let p = any_parts(0, 0, 1);
@@ -234,10 +280,12 @@ fn c06_tags_prefix_values() {
 //@ tier: quick
 //@ timeout: 1800
 //@ mem: 12
+//@ unwindset: memcmp.0=34; put_bytes=8
+//@ cbmc: --max-field-sensitivity-array-size 256
 //@ encodes: Filter::event_matches, Tags::get_string, Tags::matches, TagsIter, TagsStringIter
 //@ bounds: filter constraints [[n(1) v(0)], [n(2) v(1)]], event tags [[n(2) v(1)], [n(1)], [], [n(1) v(0) x(1)]] - empty values, multi-letter names, a name-only tag and an empty tag; bytes arbitrary
 #[kani::proof]
-#[kani::unwind(36)]
+#[kani::unwind(5)]
 #[kani::stub(core::panic::Location::caller, stub_caller)]
 fn c06_tags_empty_and_multiletter() {
     let p = any_parts(0, 0, 0);
@@ -250,10 +298,12 @@ fn c06_tags_empty_and_multiletter() {
 //@ tier: quick
 //@ timeout: 1800
 //@ mem: 12
+//@ unwindset: memcmp.0=34; put_bytes=8
+//@ cbmc: --max-field-sensitivity-array-size 256
 //@ encodes: Filter::event_matches, Tags::get_string, Tags::matches
 //@ bounds: two filter constraints with 1-byte names (possibly equal) and one 1-byte value each; event tags [[n v],[n v],[n v(0)]]; one author in the filter; bytes arbitrary
 #[kani::proof]
-#[kani::unwind(36)]
+#[kani::unwind(5)]
 #[kani::stub(core::panic::Location::caller, stub_caller)]
 fn c06_tags_repeated_names() {
     let p = any_parts(0, 1, 0);
@@ -266,10 +316,12 @@ fn c06_tags_repeated_names() {
 //@ covers: any
 //@ tier: quick
 //@ timeout: 900
+//@ unwindset: memcmp.0=34; put_bytes=8
+//@ cbmc: --max-field-sensitivity-array-size 256
 //@ encodes: Filter::event_matches (empty-event-tags shortcut)
 //@ bounds: one constraint [n(1) v(1)] (and one with no value at all), event with zero tags; header arbitrary
 #[kani::proof]
-#[kani::unwind(36)]
+#[kani::unwind(5)]
 #[kani::stub(core::panic::Location::caller, stub_caller)]
 fn c06_tags_event_without_tags() {
     let p = any_parts(1, 0, 0);
